@@ -695,3 +695,14 @@ def c03_smaller_mask_smaller_graph(k, small, large, t):
                                                                           "forall(lambda v: implies(desc1[v] != 0, large[v] != 0), 0, dv)"},
                        variant="ipow(4, k) - dv")},
         raises={"ValueError": None})
+
+
+harness("c14_roundtrip_matrix", {"acc0": "mat(ipow(4, k), 4)", "v": "nat", "j": "nat"}, '''
+def c14_roundtrip_matrix(acc0, k, v, j):
+    m = accessor_to_adjacency_matrix(acc0)
+    assert legal_rows(m, k, 0, ipow(4, k)), "the matrix of an accessor holds ones at de Bruijn shifts only"
+    back = adjacency_matrix_to_accessor(m)
+    mark(v)
+    assert back[v][j] == acc0[v][j], "accessor -> adjacency matrix -> accessor is the identity"
+''', requires={"graph": "k >= 1 and k <= 31 and is_accessor(acc0, k)", "entry": "v < ipow(4, k) and j < 4"}, ghost_params={"k": "nat"},
+        raises={"MemoryError": None})
